@@ -64,7 +64,7 @@ def lock? : List String → Option Lock
 def reqKind? : String → Option Kind
   | "validate" | "signholder" | "signcp" => some .channel_request
   | "point" => some .channel_base_request
-  | "forget" => some .forget_channel
+  | "forget" | "forgetdb" => some .forget_channel
   | "balance" => some .channel_balance
   | "chaninfo" => some .chaninfo
   | "heartbeat" => some .get_heartbeat
